@@ -44,6 +44,12 @@ def default_folder(e: ast.AST) -> Optional[bool]:
         return None
     if s in _FOLD_TRUE:
         return True
+    # literal tests (`if False:` / `while True:` and their negations): the other arm is dead code
+    pol = True
+    while isinstance(e, ast.UnaryOp) and isinstance(e.op, ast.Not):
+        e, pol = e.operand, not pol
+    if isinstance(e, ast.Constant) and isinstance(e.value, (bool, int, type(None))) and not isinstance(e.value, str):
+        return bool(e.value) == pol
     return None
 
 
@@ -346,7 +352,9 @@ class CFG:
         return [(d.ast, d.pol) for d in ds]
 
     def guard_nodes(self, n: int) -> List['Node']:
-        ds = [self.nodes[d] for d in self.dominators(n) if self.nodes[d].kind == 'branch' and d != n]
+        # branches whose test folds to a constant carry no information (their dead arm is pruned already)
+        ds = [self.nodes[d] for d in self.dominators(n) if self.nodes[d].kind == 'branch' and d != n
+              and not (self.nodes[d].ast is not None and self.folder(self.nodes[d].ast) is not None)]
         ds.sort(key=lambda x: len(self.dominators(x.id)))
         return ds
 
